@@ -1,6 +1,6 @@
 CONSTANTS
   Scope = "gen-thorough"
-  ShortLen = 60
+  ShortLen = 45
 SPECIFICATION GSpec
 CONSTRAINT Emit
 CHECK_DEADLOCK FALSE
